@@ -649,6 +649,18 @@ package semver
 //@   ensures compare(a, b) < 0
 //@   property C02
 
+// Maven ComparableVersion: an integer item whose value is zero is a "null"
+// item (IntItem.isNull), exactly like the empty string and the release
+// qualifiers, and null items are trimmed from the end of each list; so a
+// number written with several zeros ("00") is as empty as "0", and only such
+// strings and the release-equivalent qualifiers are.
+//@ lemma maven.null_item.zero
+//@   vars s string
+//@   unfold isEmptyMavenElem isZeroMavenNumber
+//@   requires len(s) >= 1 && forall(i, 0, len(s), s[i] == '0')
+//@   ensures isEmptyMavenElem(s)
+//@   property C02
+
 // The order laws of compare on versions without an extension (the SemVer
 // family, which is C09's domain), stated with triggers for use where compare
 // is referenced by symbol. They are proved here from compare's summary.
